@@ -653,6 +653,8 @@ def engb():
     for meth in range(5):
         add("C10", f"b_flatten_{meth}", f"engb::b_flatten({meth})", 1, "native", kind="pass")
     for recv in (0, 1):
+        add("C14", f"b_copy_within_{recv}", f"engb::b_copy_within({recv})", 1, "native", kind="panic")
+    for recv in (0, 1):
         add("C13", f"b_swap_rows_{recv}", f"engb::b_swap_rows({recv})", 1, "native", kind="panic")
     for ty in range(4):
         for meth in range(5):
